@@ -16,4 +16,4 @@ Extraction "model.ml"
   dump_val dump_val_capped go_equal go_hash hash_same hashable py_eq go_key_eq go_unhashable
   dict_get dict_set dict_del dict_len choose_first ref_get ref_set ref_del
   init_state decode decode_stream has_stale Build_dconfig as_int64 as_bytes as_string
-  encode run_w output Build_econfig norm unerase.
+  encode run_w output Build_econfig norm unerase reify erase fits_proto.
